@@ -58,6 +58,18 @@ STRENGTHENED.update({
  'C17-r5': 'missed at first: my own corruption table listed "offset 0 with a match length" as acceptable. In explicit-delimiter mode it is a malformed delimiter and must be refused (zstd does refuse it).',
 })
 
+STRENGTHENED.update({
+ 'C11-r4': 'missed in rounds 4 and 5 (the whole-API drivers judged the wrap by the output; random content gives the matcher nothing to read in the overwritten section). Caught since round 6 by the seam harness harness/c11_ring.c (unit c11-seam2): real caller logic + pool + serial step, block compression stubbed out, ghost stamps on every byte of the round buffer; reported at P<=1, D<=1 in 10 s.',
+ 'C04-r6': 'missed at first (no catalogue record put 31..38 extra bits between two refills of the bit container). Added the `bits` family to gen/framegen.py: blocks of six sequences with (offset, match-length, literals-length) extra-bit counts over a grid (totals 9 .. 39), tables at maximal accuracy with the used codes at probability "less than one", and the same with the predefined tables.',
+ 'C07-r6': 'missed at first (subjects of <= 400 KB with default table sizes never fill a row of the row finder, so a history-dependent row placement does not show). Added a 900 KB archive-like subject compressed with the row finder, hashLog 10 and a 16 KiB window to c07-big, and an input with match-less stretches of > 2 KiB followed by repeats of what was skipped to c07-histories.',
+ 'C08-r6': 'missed at first (inputs were at most a few KB, so no offset code beyond what a first block can need). Added unit c08-far (3 / 5 / 9 raw 128 KiB blocks, then a block copying from the dictionary and from the first blocks, x structured dictionaries x 3 supplies x levels 1 / 3 / 5) and two offset tables "every code 0..17 / 0..18 present, nothing above" to gen/dictgen.py.',
+ 'C09-r6': 'C09\'s check does not drive the seekable reader; the change is caught as built by C20 (c20-corrupt). The first C09 run against this worktree reported the unrelated pledged-size defect of the then unrepaired base (defect #25, found through this agent\'s side observation and fixed in /repo ce871a7); the row kept here is the run on the repaired base.',
+ 'C12-r6': 'missed as built (780 168 schedules, no alarm: jobs of the grammar posted only with tryAdd, and a blocked external poster is woken late but always woken). The grammar now allows one job per program that posts its child with the blocking call, on pools that keep >= 2 threads (deadlock-free on an ideal pool): deadlock found.',
+ 'C13-r6': 'missed at first (multithreaded scenarios ran on the default schedule only, where job N-1 has always taken its serial turn before job N allocates). Added units c13-mtsched (P<=1, D<=1) and c13-mtsched-d2 (P<=1, D<=2 for the two-worker scenario; thorough: all): the preempted worker is overtaken by the other one, whose allocation is refused: deadlock found.',
+ 'C14-r6': 'missed at first by C14 (a static stream only ever decoded one frame). Added unit c14-dseq: every sequence of 2-3 frames out of 8 kinds with differently distributed buffer needs on one static (estimateDStreamSize) or heap stream, 3 input slicings, 2 output rooms.',
+ 'C16-r6': 'missed at first (the struct setters ZSTD_CCtx_setCParams / setFParams / setParams were not in the operation alphabet). Added operation structSetter to c16-grid: valid struct with the opposite frame flags and the parameter under test replaced by lo / hi / lo-1 / hi+1; refused => nothing changed, accepted => every member reads back.',
+})
+
 def main():
     rows = collections.defaultdict(list)
     p = os.path.join(V, 'build/seedmatrix.tsv')
